@@ -1,6 +1,6 @@
 (* C03 — restrict keeps exactly the samples inside the closed intervals, rows intact.
    Only statements and `exact`; the proofs are in Proofs/RestrictProofs.v. *)
-From Verif Require Import Base.Prelude Model.Restrict Model.Iset Proofs.RestrictProofs Proofs.C02Top Proofs.C03Compose.
+From Verif Require Import Base.Prelude Model.Restrict Model.Iset Proofs.RestrictProofs Proofs.C02Top Proofs.C03Compose Model.Store.
 
 (* 1. the scan selects exactly the positions whose timestamp lies in some closed interval,
       in the original order (duplicates kept) *)
@@ -35,11 +35,37 @@ Theorem C03_compose_intersect : forall ts a b, sortedZ ts -> canonical a -> cano
 Proof. exact restrict_restrict_intersect. Qed.
 Print Assumptions C03_compose_intersect.
 
+(* 3c. the statement's own, per-sample form (C03_compose_intersect needs EVERY sample of the series to be far from the
+       endpoints): a sample x farther than 1 us from every endpoint of a and b is selected by restrict(a).restrict(b) exactly as
+       often as by restrict(a.intersect(b)), whatever the other samples of the series are *)
+Theorem C03_compose_intersect_sample : forall ts a b x, sortedZ ts -> canonical a -> canonical b -> far x a b ->
+  count_occ Z.eq_dec (restrict_ts (restrict_ts ts a) b) x = count_occ Z.eq_dec (restrict_ts ts (iset_inter a b)) x.
+Proof. exact restrict_restrict_intersect_sample. Qed.
+Print Assumptions C03_compose_intersect_sample.
+
 (* 4. the result is sorted and inside the new support *)
 Theorem C03_in_support : forall ts ep, sortedZ ts -> canonical ep ->
   Forall (fun x => mem x ep = true) (restrict_ts ts ep) /\ sortedZ (restrict_ts ts ep).
 Proof. exact restrict_in_support. Qed.
 Print Assumptions C03_in_support.
+
+(* 4b. the time support of x.restrict(ep) (the constructor call of _Base.restrict, Model/Store.v) is ep, or empty when no
+       sample survives; the timestamps it holds are the restricted ones (C04_restrict_keeps) *)
+Theorem C03_support : forall t ep,
+  sup_ (mk_ts_sup (restrict_ts t ep) ep) = match restrict_ts t ep with [] => [] | _ => ep end.
+Proof. exact restrict_support. Qed.
+Print Assumptions C03_support.
+
+(* 4c. constructing with time_support = ep selects the same samples as constructing without and then restricting, for any
+       (also unsorted) timestamps spanning a positive duration *)
+Theorem C03_constructor : forall t ep, canonical ep ->
+  match sortZ t with
+  | [] => True
+  | x :: _ => x < last (sortZ t) x ->
+      t_ (mk_ts_sup t ep) = t_ (mk_ts_sup (restrict_ts (t_ (mk_ts t)) ep) ep)
+  end.
+Proof. exact ctor_support_is_ctor_then_restrict. Qed.
+Print Assumptions C03_constructor.
 
 (* 5. per-interval counts (jitrestrict_with_count) and their sum *)
 Theorem C03_counts : forall ts ep, sortedZ ts -> canonical ep ->
